@@ -100,6 +100,14 @@ CHECKS = {
              "shown never to encode to 0 by a small non-zero dataflow; the generated plumbing is checked per method on the corpus and repository traits.",
         note="trusts NonZeroI32/MaybeUninit semantics; user-defined IntError impls outside the repository are out of scope",
         ref="4 C13"),
+    "C14": dict(
+        cat="other",
+        technique="ledger pairing (Box::leak::<[u8]> <-> Box::from_raw::<[c_char]>), accepted-idiom rule on the origin chain of the leaked buffer, delegation rules for every other impl",
+        text="the buffer invariant (`prefix before the first NUL + exactly one NUL`, freed with the scanned length) is established by the shape of the only "
+             "functions that build a ReprCString and of Drop; every other impl is shown to go through as_ref. The idiom table has two entries and is the stated "
+             "limit of the check. From<&[u8]> violated S1/S2 on the pinned tree and was repaired by a fix: commit.",
+        note="trusts take_while/chain/collect/CString semantics; string_size itself is read, not analysed",
+        ref="4 C14"),
     "C15": dict(
         cat="other",
         technique="loop-body path enumeration and dominance rules over MIR (exactly-one call per item, counter update before it, exit on false/exhaustion), exactly-once rules on trampolines, arm rules on the iterator protocol",
